@@ -116,6 +116,8 @@ def run():
         # F18, F32, F31, F33, F33b are FIXED (68466ba, b5c2cd4, 75c6718, 99a89d3, 6cdd79f): nothing excuses them any more
         if case.get("kind") == "format-tokens" and any("\\" in n for n in case.get("names", [])) and '"' in case.get("unformatted", ""):
             return "C09-N1-sqlformat-splits-backslash-identifier"
+        if case.get("kind") == "format-tokens" and any("$" in n and n == fold(n) and (" " + n + ",") in case.get("unformatted", "") for n in case.get("names", [])):
+            return "C09-N2-sqlformat-splits-dollar-in-bare-identifier"
         return None
 
     # ------------------------------------------------------------ names
@@ -495,6 +497,9 @@ def run():
             add_test(sk, "alias", "t", "u", vn, None, "k", "a", "b", "c")
             add_test(sk, "alias", "t", "u", vn, other, "k", "a", "b", "c")
             add_test(sk, "table2", "t", vn, None, None, "k", "a", "b", "c")
+            # the case variant is a TABLE that the program refers to through plain aliases only
+            add_test(sk, "table", vn, "u", "x", None, "k", "a", "b", "c")
+            add_test(sk, "table2", "t", vn, "x", "y", "k", "a", "b", "c")
     # F33b (open): a user COLUMN that is a case variant of a generated column name, next to a duplicate that the split
     # renames to that generated name: every relative order (the reference binds to the first of the two on SQLite)
     for uc in (cp.upper() + "0", cp.capitalize() + "0"):
